@@ -212,13 +212,16 @@ class HTTPRequestParser:
         index = header_plus.find(b"\r\n")
 
         if index >= 0:
-            first_line = header_plus[:index].rstrip()
+            first_line = header_plus[:index]
             header = header_plus[index + 2 :]
         else:
             raise ParsingError("HTTP message header invalid")
 
+        # look before stripping: rstrip() would remove a bare CR or LF that
+        # sits between the request line and its CRLF
         if b"\r" in first_line or b"\n" in first_line:
             raise ParsingError("Bare CR or LF found in HTTP message")
+        first_line = first_line.rstrip()
 
         self.first_line = first_line  # for testing
 
